@@ -15,9 +15,8 @@ Theorem iterate_compiled
   (solve : cnf -> option asg)
   (solve_sound : forall f s, solve f = Some s -> sat s f = true)
   (solve_complete : forall f, solve f = None -> forall s, sat s f = false)
-  (fb : flat) (b : backend) (ok : bool) (n' : Z) (final : cnf) (count : nat) :
+  (fb : flat) (b : backend) (ok : bool) (n' : Z) (final : cnf) (count support : nat) :
   in_f1 fb = true -> 0 < T fb -> compile fb = COk b -> full_cnf b = (ok, n', final) ->
-  let support := T fb * vpt fb in
   let r := iterate solve count final support in
   NoDup r /\
   (forall sol, In sol r ->
@@ -26,7 +25,7 @@ Theorem iterate_compiled
      forall q, valid_b (code_sem fb) q = true ->
        exists t, sat t final = true /\ onehot fb t q /\ In (proj support t) r).
 Proof.
-  intros HF1 HT Hc Ef support r.
+  intros HF1 HT Hc Ef r.
   destruct (iterate_exhausts solve solve_sound solve_complete count final support) as (Hnd & Hin & _ & Hex & _).
   fold r in Hnd, Hin, Hex. split; [exact Hnd|]. split.
   - intros sol Hsol. destruct (Hin sol Hsol) as (t & St & Ep).
